@@ -43,6 +43,11 @@ fn alphabet(b: &Built) -> Vec<Op> {
         a.push(Op::Dec { pos, part: Part::Half, v2: pos % 2 == 0 });
         a.push(Op::Dec { pos, part: Part::One, v2: true });
     }
+    if b.w.pool.tick_spacing == 64 {
+        a.push(Op::Repos { pos: 0, lower: -64, upper: 192, liq: 123_456_789 });
+        a.push(Op::Repos { pos: 0, lower: -128, upper: 128, liq: stdworlds::BIG });
+        a.push(Op::Repos { pos: 1, lower: 192, upper: 5696, liq: 1 });
+    }
     for a_to_b in [true, false] {
         a.push(Op::Swap { a_to_b, exact_in: true, amount: u64::MAX >> 8, lim: Lim::NextTick, v2: a_to_b }); // exactly on a bound / shifted state
         a.push(Op::Swap { a_to_b, exact_in: true, amount: 3_000_000, lim: Lim::None, v2: !a_to_b });
@@ -69,6 +74,7 @@ fn by_token_amounts(l: &Ledger, w: &StdWorld, s: &mut ByAmt) -> Result<(), Strin
         if !p.exists(l) {
             continue;
         }
+        let p = &p.at(l);
         let (pl, pu) = (sqrt_price_from_tick_index(p.lower), sqrt_price_from_tick_index(p.upper));
         let cost = |liq: u128| -> (num_bigint::BigUint, num_bigint::BigUint) {
             let (qa, qb) = if pool.tick_current_index < p.lower {
@@ -160,6 +166,19 @@ fn model<'a>(b: &'a Built, stats: &'a Mutex<AmtStats>, by: &'a Mutex<ByAmt>, by_
             r
         }),
         Box::new(move |pre: &Ledger, st: &Stepped, w: &StdWorld, op: &Op| {
+            if let Op::Repos { pos, lower, upper, liq } = op {
+                let mut local = AmtStats::default();
+                let r = liqhandlers::reposition_oracle(pre, st, w, &w.positions[*pos as usize].at(pre), *lower, *upper, *liq, &mut local);
+                let mut g = stats.lock().unwrap();
+                g.increases += local.increases;
+                g.decreases += local.decreases;
+                g.below += local.below;
+                g.inside += local.inside;
+                g.above += local.above;
+                g.bound_reruns += local.bound_reruns;
+                g.bound_failures += local.bound_failures;
+                return r;
+            }
             let (pos, liq, increase, v2) = match op {
                 Op::Inc { pos, liq, v2 } => (*pos as usize, *liq, true, *v2),
                 Op::Dec { pos, part, v2 } => {
@@ -173,7 +192,7 @@ fn model<'a>(b: &'a Built, stats: &'a Mutex<AmtStats>, by: &'a Mutex<ByAmt>, by_
                 }
                 _ => return Ok(()),
             };
-            let p = &w.positions[pos];
+            let p = &w.positions[pos].at(pre);
             let v2 = v2 || !w.pool.is_v1_capable();
             let ix_of = |a: u64, b: u64| if increase { world::ix_increase(p, &w.lp, liq, a, b, v2) } else { world::ix_decrease(p, &w.lp, liq, a, b, v2) };
             let mut local = AmtStats::default();
